@@ -47,10 +47,15 @@ def main():
     ap.add_argument('prop')
     ap.add_argument('--needs', default='')
     ap.add_argument('--every', action='store_true')
+    ap.add_argument('--note', default='')
+    ap.add_argument('--extra-props', default='', help='comma list of further properties the change also breaks')
     ap.add_argument('--tier', default='quick')
     args = ap.parse_args()
     src = os.path.abspath(args.src)
-    meta = {'id': args.id, 'props': [args.prop.upper()], 'needs': args.needs, 'ran': []}
+    meta = {'id': args.id, 'props': [args.prop.upper()] + [p for p in args.extra_props.upper().split(',') if p],
+            'needs': args.needs, 'ran': []}
+    if args.note:
+        meta['note'] = args.note
     clean = copy_repo()
     mut = copy_repo()
     try:
